@@ -8,7 +8,7 @@ F7_WHAT = "empty control-point list computed on buffers that hold a previous pat
 
 class C16(Property):
     id = "C16"
-    lean_module = "RosuModel.Props.C16Full"   # imports Props/C16Exact.lean and Props/C16.lean; all in namespace Rosu.C16
+    lean_module = "RosuModel.Props.C16Full"   # imports Props/C16Surplus.lean (→ Props/C16Exact.lean → Props/C16.lean) and Props/C16Ieee.lean; all in namespace Rosu.C16
     theorem_modules = ['RosuModel.Props.C16Surplus', 'RosuModel.Props.C16Ieee', 'RosuModel.Props.C16IeeeLen']   # files whose top-level theorems are all audited
     namespace = "Rosu.C16"
     design_ref = "5.16"
@@ -20,7 +20,9 @@ class C16(Property):
         "cut_shape (adjusted path = first k+1 natural points ++ [p_k + dir*(L - len_k)], k = last index with length < L, lastValid_spec), "
         "dist_zero_when_nothing_below, dist_natural_when_near/none, natural_dist + natTotal_eq_fold (natural distance = fold of segment "
         "lengths), single_point_keeps, equal_tail_keeps_natural/equal_tail_dist, lengths_path_aligned, lengths_head_zero. "
-        "Exact-arithmetic part (laws are explicit hypothesis structures, each shown satisfiable by an instance): lengths_monotone (MonoLaws, Int); "
+        "IEEE part (Props/C16Ieee.lean, theorems about the driver's Float / Float32 through Lean 4.33's logical float model): le_add_float / le_add_float32 (round-to-nearest-even addition of a non-negative number never "
+        "decreases, unless an operand or the sum is NaN), MonoLawsIeee, lengths_monotone_float / lengths_monotone_float_nonneg (cumulative lengths computed in IEEE f64 never decrease — exactly — when the segment lengths are >= 0). "
+        "Exact-arithmetic part (laws are explicit hypothesis structures, each shown satisfiable by an instance, each refuted on the IEEE instances in Props/IeeeFalse.lean): lengths_monotone (MonoLaws, Int); "
         "catmull_simplify_preserves_length (SumLaws = + associative/commutative, a+0=a, (a-b)+b=a, distance symmetric; Int): the points the osu!-mode "
         "simplification keeps, measured with the updated optimized_len as seed, are exactly as long as the full Catmull sub-path measured with the old one, "
         "whatever the keep rule selects (telescoping, simplifyLoop_inv/simplifyLoop_fin); end_point_on_ray (RayLaws = * associative, recip(a)*s = s/a; Rat): "
@@ -38,7 +40,7 @@ class C16(Property):
         "catmullSimplify_surplus_nonneg = surplus_nonneg (the osu!-mode simplification never decreases optimized_len: what it removes between two kept points is at least their straight "
         "distance; loop invariant SurpInv), calculatePath_optLen_nonneg (calculate_path hands calculate_length an optimized_len >= 0, every mode / control points / fuel / buffers) and "
         "new_lengths_monotone: the cumulative lengths of EVERY curve Curve::new builds never decrease. "
-        "Model tied to the code bit-for-bit on every run; IEEE monotonicity/finiteness and the float-level geometry are evaluated on the real code by an "
+        "Model tied to the code bit-for-bit on every run; IEEE finiteness, monotonicity of what calculate_length returns after a cut / extension, and the float-level geometry are evaluated on the real code by an "
         "oracle written from the property text.")
     technique = "Lean 4 proof (case analysis of the mirrored control flow, generic arithmetic) + bit-exact differential correspondence"
     required_theorems = ["calculateLength_some", "calculateLength_total", "lengths_head_zero", "dist_exact", "cut_shape",
@@ -54,23 +56,41 @@ class C16(Property):
                          # Props/C16Surplus.lean
                          "root_triangle", "distance_triangle", "simplifyStep_surplus", "simplifyLoop_surplus",
                          "catmullSimplify_surplus_nonneg", "calculateSubpath_optLen", "segBody_optLen", "segFold_optLen",
-                         "calculatePath_optLen_nonneg", "new_lengths_monotone"]
+                         "calculatePath_optLen_nonneg", "new_lengths_monotone",
+                         # Props/C16Ieee.lean: IEEE monotonicity of a + x (x >= 0) and lengths_monotone for the driver's Float / Float32
+                         "le_add_float", "le_add_float32", "add_isNaN_float", "add_isNaN_float32", "add_nonneg_float", "add_nonneg_float32",
+                         "le_add_float_nonneg", "le_add_float32_nonneg", "monoLawsIeee_float", "monoLawsIeee_float32", "monoLawsIeee_of_exact",
+                         "cumLens_eq_runSums", "runSums_mono", "runSums_mono_nonneg", "lengths_monotone_ieee", "lengths_monotone_float",
+                         "lengths_monotone_float_nonneg", "natLens_monotone_ieee", "natLens_monotone_float"]
     partial_theorems = {
-        "lengths_monotone": "proved in exact arithmetic only: for every scalar satisfying ExactArith (instances Rat, reals; also the older MonoLaws on Int), both for the natural running sums (lengths_monotone) and for what calculate_length returns in all five outcomes (calculateLength_lengths_monotone, hypothesis optimized_len >= 0) and, with sqrt a square root (SqrtLaws; reals), for every curve Curve::new builds (new_lengths_monotone via surplus_nonneg = catmullSimplify_surplus_nonneg / calculatePath_optLen_nonneg); IEEE monotonicity 'beyond 1e-5' and finiteness are tested by the harness oracle, not proved (finiteness fails: F11, F13)",
-        "catmull_simplify_preserves_length": "proved in exact arithmetic only (SumLaws, instantiated on Int); in IEEE the surplus is accumulated with rounding (it can even be negative by ~5e-7) - tested: natural dist in osu! mode vs the unsimplified curve's dist, 1e-5 relative",
-        "end_point_on_ray / cut_param_range (cut_on_segment, extension_collinear)": "proved in exact arithmetic only (RayLaws on Rat, OrdLaws on Int); t <= 1 for a cut holds for every segment but the first when optimized_len > 0 (F12); the float-level statement (end point on the segment's line at distance L - len_k, within slack) is tested by the oracle; F11 (zero-length segment, division by zero) is outside the laws' domain (|v| = 0)",
+        "lengths_monotone": "exact arithmetic: for every scalar satisfying ExactArith (instances Rat, reals; also the older MonoLaws on Int), both for the natural running sums (lengths_monotone) and for what calculate_length returns in all five outcomes (calculateLength_lengths_monotone, hypothesis optimized_len >= 0) and, with sqrt a square root (SqrtLaws; reals), for every curve Curve::new builds (new_lengths_monotone via surplus_nonneg = catmullSimplify_surplus_nonneg / calculatePath_optLen_nonneg). "
+            "MonoLaws itself is FALSE of the driver's instances (le_add fails for a = NaN: Rosu.IeeeFalse.monoLaws_float_false, Props/IeeeFalse.lean, audited under C02), so those theorems are vacuous on IEEE. "
+            "IEEE arithmetic (Props/C16Ieee.lean — in Lean 4.33 Float / Float32 are structures over the logical model Float.Model, so `+`, `<=`, isNaN reduce in the kernel; Lemmas/FloatModelValue.lean, FloatModelRound.lean "
+            "(round_spec, round_ge / round_le: round-to-nearest-even specified), FloatModelAdd.lean (le_add_unpacked), generic in the format): le_add_float / le_add_float32 — a not NaN, 0 <= x, a + x not NaN ⇒ a <= a + x "
+            "(overflow to +inf, subnormals, signed zeros, negative a included); add_isNaN_float(32) — the sum is NaN only for -inf + +inf; le_add_float_nonneg / add_nonneg_float — for 0 <= a, 0 <= x no side condition; "
+            "the corrected law structure MonoLawsIeee with monoLawsIeee_float / monoLawsIeee_float32; and lengths_monotone_ieee / lengths_monotone_float: the natural cumulative lengths cumLens c path computed in IEEE f64 from f32 "
+            "points never decrease — EXACTLY, not up to 1e-5 — if no entry is NaN and every segment length satisfies 0 <= ·; lengths_monotone_float_nonneg / natLens_monotone_float: for a start value 0 <= c (optimized_len >= 0) "
+            "the NaN hypothesis is not needed (the sums are then >= 0, possibly +inf). STILL A HYPOTHESIS for IEEE: that every segment length f64::from(sqrt(dx*dx + dy*dy)) computed in f32 is >= 0 (the analogue of "
+            "MonoLaws.len_nonneg for the real Cvt / sqrt chain — the conversions of Model/FloatBits.lean reduce, but no theorem about them is proved), and that calculate_path hands over optimized_len >= 0 in IEEE (the Catmull "
+            "surplus is accumulated with rounding and can be negative by ~5e-7); the cut / extension outcomes of calculate_length are not covered by the IEEE theorems. Finiteness is tested by the harness oracle, not proved (it fails: F11, F13)",
+        "catmull_simplify_preserves_length": "proved in exact arithmetic only (SumLaws, instantiated on Int; SumLaws Float32 Float is refuted in the kernel — -0.0 + 0.0 ≠ -0.0: Rosu.IeeeFalse.sumLaws_float_false — so the theorem is vacuous on the IEEE instance); in IEEE the surplus is accumulated with rounding (it can even be negative by ~5e-7) - tested: natural dist in osu! mode vs the unsimplified curve's dist, 1e-5 relative",
+        "end_point_on_ray / cut_param_range (cut_on_segment, extension_collinear)": "proved in exact arithmetic only (RayLaws on Rat, OrdLaws on Int; both are refuted on the IEEE instances in the kernel — Rosu.IeeeFalse.rayLaws_float32_false: (1e30·1e30)·1e-30 = inf, ordLaws_float_false: a rounding witness for sub_le — so these theorems are vacuous there); t <= 1 for a cut holds for every segment but the first when optimized_len > 0 (F12); the float-level statement (end point on the segment's line at distance L - len_k, within slack) is tested by the oracle; F11 (zero-length segment, division by zero) is outside the laws' domain (|v| = 0)",
         "dist_exact": "the property says 'exactly L' for every L > 0; the code keeps the natural length when |natural - L| < f64::EPSILON (hypothesis `near = false`); the oracle accepts that case explicitly (reported as OK near-natural)",
     }
     trusted_base = [
         "Lean 4.33.0 kernel",
         "axioms: at most propext, Classical.choice, Quot.sound (audited per theorem with #print axioms)",
         "hand-written model Model/Curve.lean (+Basic, Scalar) tied to /repo by the differential run of this check (bit-exact path and lengths)",
-        "Lean Float/Float32 = C double/float = Rust f64/f32 for + - * / sqrt, comparisons, casts; libm sin/cos/acos/acosf/atan2 shared by both processes",
+        "the *_float / *_float32 theorems are about Lean 4.33's logical float model Float.Model (Float / Float32 are structures over it; + - * / sqrt abs, comparisons, isNaN reduce in the kernel); that the compiled "
+        "@[extern] C double / float operations agree with that model is part of Lean's own trusted code base (compiler / runtime) and is compared with Rust f64/f32 bit for bit (codec requests fop64 / fop32 "
+        "<add|sub|mul|div|sqrt|abs|neg|cmp|minmax>; the casts f32↔f64, `as i32`, ceil are the bit-level definitions of Model/FloatBits.lean, compared by castf32f64, castf64f32, castf64i32, castf32i32, ceilf64, ceilf32; "
+        "and every `curve` request of this run); libm sin/cos/acos/acosf/atan2 stay opaque and are shared by both processes",
         "harness/src/curve.rs (observation through the public API) and harness/src/curveprop.rs (oracle written from the property text)",
     ]
     assumptions = [
         "theorems are about the Lean model; model = code is checked only on the generated inputs of this run (bit-for-bit, including arc segments: no ulp tolerance was needed)",
-        "structural theorems hold for IEEE arithmetic because they use no arithmetic law; law-dependent ones hold in exact arithmetic only",
+        "structural theorems hold for IEEE arithmetic because they use no arithmetic law; theorems under MonoLaws / SumLaws / RayLaws / OrdLaws / ExactArith hold in exact arithmetic only (each of the four law structures "
+        "is refuted on Float / Float32 in Props/IeeeFalse.lean); the IEEE theorems of Props/C16Ieee.lean take `segment lengths >= 0` (and, without a non-negative start, `no entry is NaN`) as hypotheses",
         "oracle reading of 'exactly L': bit-identical to L, or natural length kept when |natural - L| < f64::EPSILON",
         "domain: finite coordinates within +-131072, at most 12 control points per list",
     ]
